@@ -78,34 +78,65 @@ def check(ctx):
     stage = vlib.stage_replay(ctx)
     if ctx.replay_in and not stage:
         keys = [bytes.fromhex(json.load(open(ctx.replay_in))["replay"]["code"])]
+    # values whose size sits exactly at the value-size limit, written to / loaded next to literal keys, for several limits
+    # (a wrapper or a copy built with the limit must not swallow the key)
+    boundary = []          # (code, limit)
+    bkeys = [5, 2 ** 64, 2 ** 128 + 7, 0x360894a13ba1a3210667c828492db98dca3e2076cc3735a920a3ca505d382bbc, 2 ** 256 - 1]
+    for lim in ([5, 9, 250] if ctx.quick else [3, 4, 5, 6, 9, 20, 50, 250, 1000]):
+        for k in range(max(0, lim - 6), lim + 3):
+            a = gen.Asm()
+            a.push(0).op("CALLDATALOAD")
+            for _ in range(k):
+                a.op("ISZERO")
+            a.push(rng.choice(bkeys)).op("SSTORE")
+            if rng.random() < 0.5:
+                a.push(rng.choice(bkeys)).op("SLOAD").op("POP")
+            a.op("STOP")
+            boundary.append((a.assemble(), lim))
+    groups = [(L.DEFAULT_CFG, keys)]
+    if not ctx.replay_in:
+        for lim in sorted(set(l for _, l in boundary)):
+            groups.append((L.DEFAULT_CFG[:3] + (lim,) + L.DEFAULT_CFG[4:], [c for c, l in boundary if l == lim] + (keys[::23] if lim < 250 else [])))
+    elif not stage:
+        rp = json.load(open(ctx.replay_in))["replay"]
+        if rp.get("config"):
+            groups = [(tuple(rp["config"]), keys)]
     if hb and not stage:
         table = L.keccak_table(hb)
-        vmo = L.vm(ctx, hb, keys)
-        ano = L.analyze(ctx, hb, keys)
-        terms = []
-        nlits = 0
-        for v, a in zip(vmo, ano):
-            consts = set(int(x) for x in re.findall(r"T_KnownData \[(\d+)\]", v))
-            pre = ";".join("(%d,%d)" % (c, table[c]) for c in sorted(consts) if c in table)
-            terms.append("(%s, %s)" % (vlib.coq_bytes(keys[len(terms)]), L.hexify("mk_c056case (%s) (%s) [%s] []" % (v, a, pre))))
-        mcfg = gen.coq_config(L.DEFAULT_CFG)
-        bad = vlib.run_cases(ctx, "coverage", L.HEADER, terms, per_shard=min(60, max(1, len(terms) // 32 + 1)),
-                             fn="(fun t => c06m_code (fst t) (%s) (snd t))" % mcfg)
-        nkeys = vlib.run_cases(ctx, "model-keys", L.HEADER, terms, per_shard=min(60, max(1, len(terms) // 32 + 1)),
-                               fn="(fun t => c06m_keys (fst t) (%s) (snd t))" % mcfg)
-        for idx, code in bad:
-            c = keys[idx]
-            ctx.violate("C06:%d:%s" % (code, c.hex()[:48]),
-                        "%s: program %s" % ({72: "a literal storage key of an explored path has no layout entry",
-                                       73: "a literal storage key of a path the MODEL explores has no layout entry (the implementation's own states do not show the access)",
-                                       78: "panic"}.get(code, code), c.hex()[:160]),
-                        {"code": c.hex(), "layout": ano[idx][:600],
-                         "how": "echo '<code> 30000000 10 50 250 394 0 100 -1 all' | build/harness-target/debug/slxh analyze  (and ... vm)"})
-        ok_layouts = len([1 for a in ano if a.startswith("XA 0") and ",(AT" in a])
-        ctx.coverage.update({"evaluations": len(keys), "distinct_nontrivial": ok_layouts,
-                             "literal_keys_in_model_runs": sum(v for _, v in nkeys),
+        ok_layouts, nk, total = 0, 0, 0
+        aclasses = collections.Counter()
+        for gcfg, gkeys in groups:
+            tag = "limit%d" % gcfg[3]
+            vmo = L.vm(ctx, hb, gkeys, cfg=gcfg, name="vm:" + tag)
+            ano = L.analyze(ctx, hb, gkeys, cfg=gcfg, name="analyze:" + tag)
+            terms = []
+            for c, v, a in zip(gkeys, vmo, ano):
+                consts = set(int(x) for x in re.findall(r"T_KnownData \[(\d+)\]", v))
+                pre = ";".join("(%d,%d)" % (k, table[k]) for k in sorted(consts) if k in table)
+                terms.append("(%s, %s)" % (vlib.coq_bytes(c), L.hexify("mk_c056case (%s) (%s) [%s] []" % (v, a, pre))))
+            mcfg = gen.coq_config(gcfg)
+            bad = vlib.run_cases(ctx, "coverage-" + tag, L.HEADER, terms, per_shard=min(60, max(1, len(terms) // 32 + 1)),
+                                 fn="(fun t => c06m_code (fst t) (%s) (snd t))" % mcfg)
+            nkeys = vlib.run_cases(ctx, "model-keys-" + tag, L.HEADER, terms, per_shard=min(60, max(1, len(terms) // 32 + 1)),
+                                   fn="(fun t => c06m_keys (fst t) (%s) (snd t))" % mcfg)
+            for idx, code in bad:
+                c = gkeys[idx]
+                ctx.violate("C06:%d:%s" % (code, c.hex()[:48]),
+                            "%s (value size limit %d): program %s" % ({72: "a literal storage key of an explored path has no layout entry",
+                                           73: "a literal storage key of a path the MODEL explores has no layout entry (the implementation's own states do not show the access)",
+                                           78: "panic"}.get(code, code), gcfg[3], c.hex()[:160]),
+                            {"code": c.hex(), "config": list(gcfg), "layout": ano[idx][:600],
+                             "how": "echo '<code> <gas> <iter> <fork> <size limit> <mem> 0 100 -1 all' | build/harness-target/debug/slxh analyze  (and ... vm)"})
+            ok_layouts += len([1 for a in ano if a.startswith("XA 0") and ",(AT" in a])
+            nk += sum(v for _, v in nkeys)
+            total += len(gkeys)
+            aclasses.update(tag + ":" + str(L.xa_class(a)) for a in ano)
+        ctx.coverage.update({"evaluations": total, "distinct_nontrivial": ok_layouts,
+                             "literal_keys_in_model_runs": nk,
                              "input_classes": dict(collections.Counter(progs.values())),
-                             "analysis_classes": dict(collections.Counter(str(L.xa_class(a)) for a in ano))})
+                             "size_boundary_programs": len(boundary),
+                             "value_size_limits": sorted(set(g[0][3] for g in groups)),
+                             "analysis_classes": dict(aclasses)})
     import p_pipeline
     p_pipeline.suite(ctx, translate=False, codes={12}, cov_key="whole_pipeline_model", only=r"^(pipeline_literal_key_row|pipeline_nine_passes_keep|pipeline_storage_entries|pipeline_glue|pipeline_rule_order)", part=(1, 3))
     import p_tc_stages as TS
